@@ -124,10 +124,10 @@ Example ex_loop_pass_solved :
 Proof. exact ex_loop_pass_solved_proof. Qed.
 (* the hypotheses hold for what the model's own setup() (Ruiz, 10 iterations, cost scaling) returns on a badly
    scaled instance of the same shape; the scalings it reports are not 1 *)
-Example ex_setup_ok : exists sv, setup consts false (q 0 1) exS_cost 2 1 1 exB = Ok sv.
+Example ex_setup_ok : exists sv, setup consts false false (q 0 1) exS_cost 2 1 1 exB = Ok sv.
 Proof. exact ex_setup_ok_proof. Qed.
 Example ex_setup_scaled_problem :
-  forall sv, setup consts false (q 0 1) exS_cost 2 1 1 exB = Ok sv ->
+  forall sv, setup consts false false (q 0 1) exS_cost 2 1 1 exB = Ok sv ->
   scaled_problem exU2 (sv_data sv) (sv_pc sv) /\
   negb (qeqb (pc_c (sv_pc sv)) 1) && negb (qeqb (el (pc_delta (sv_pc sv)) 0) 1) && negb (qeqb (el (pc_delta_lb (sv_pc sv)) 0) 1) = true.
 Proof. exact ex_setup_scaled_problem_proof. Qed.
